@@ -188,6 +188,10 @@ def auth_matrix(ctx):
     client_vs_ref("control-rsa", "rsa", expect_complete=True)
     client_vs_ref("wrong-name", "wrongname")
     client_vs_ref("requested-other-name", "ed25519", server_name="example.org")
+    # names that are IP address literals (what connect() passes for an address): the certificate is for "localhost" only
+    client_vs_ref("requested-ipv4-literal", "ed25519", server_name="192.0.2.7")
+    client_vs_ref("requested-ipv6-literal", "ed25519", server_name="2001:db8::7")
+    client_vs_ref("requested-ipv4-loopback-literal", "ed25519", server_name="127.0.0.1")
     client_vs_ref("expired", "expired")
     client_vs_ref("not-yet-valid", "notyet")
     client_vs_ref("foreign-ca", "foreign")
